@@ -164,7 +164,7 @@ def run(ctx):
     missing += [(op,) + c for c in need for op in ("QUERY", "PREPARE") if not e2e_cls.get((op,) + c)]
     missing += [x for x in [("QUERY", "local"), ("QUERY", "forward"), ("PREPARE", "local"), ("PREPARE", "forward"),
                             ("EXECUTE", "local"), ("EXECUTE", "forward")] if not e2e_ops.get(x)]
-    missing += [v for v in ("query", "prepare", "prepare_switch", "switch_query", "faileduse_query") if not e2e["via_counts"].get(v)]
+    missing += [v for v in ("query", "prepare", "prepare_switch", "switch_query", "faileduse_query", "prepare_reqks") if not e2e["via_counts"].get(v)]
     kinds = {k.split("|")[0] for k in fn["class_totals"]}
     missing += [k for k in ("USE", "SELECT", "INSERT", "UPDATE", "DELETE", "DDL", "BATCH", "TRUNCATE", "GARBAGE") if k not in kinds]
 
